@@ -95,6 +95,14 @@ fn main() {
         if res.samples.len() < 2 && o.nontrivial && o.alarms.is_empty() {
             res.samples.push(json!({"case": c, "events": o.events, "interleaving_classes": o.cov}));
         }
+        if args.get_str("weakmem").is_some() {
+            // pass B of the Miri leg (weak-memory emulation on): only UB / data-race reports of the interpreter
+            // are verdicts; behavioural deviations cannot be reproduced on this host and are only logged
+            for a in &o.alarms {
+                res.inconclusive.push(format!("case {} under weak-memory emulation: {}/{}: {}", case, a.clause, a.culprit, a.detail));
+            }
+            continue;
+        }
         for a in &o.alarms {
             let sig = format!("{}/{}", a.clause, a.culprit);
             res.cov(&format!("alarm:{}", sig), 1);
